@@ -296,7 +296,9 @@ def check_c08(out, tier):
             if rnd.random() < .3:
                 T = gen.schema_graph(rnd, bnodes=bn)
             else:
-                T = gen.general_graph(rnd, bnodes=bn, max_nodes=6)
+                # (a class that is itself an instance + blank-node subjects + inverse paths prints blank-node labels inside
+                #  value sets - known finding KF.C09.bnodevalueset - and rdflib spells those labels differently)
+                T = gen.general_graph(rnd, bnodes=bn, max_nodes=6, hierarchy=not bn)
             cfg = gen.switches(rnd)
             cfg["report"] = "mixed"
             base = gen.case("c08g%d" % i, T, **cfg)
